@@ -188,7 +188,8 @@ def fam_suppress(p: Dict[str, Any], problems: List[str], w: World) -> Tuple[str,
                                             else DNSQuestionType.QM)
 
         def after_first() -> None:
-            box["b1"]._async_cancel()
+            b1 = box["b1"]
+            b1._async_cancel() if hasattr(b1, "_async_cancel") else w.spawn(b1.async_cancel())
             if rel == "superset":
                 inject(wire.encode(6, 0x8400, (), [ptr(9, 0)]))  # withdrawn: the second asker no longer knows it
             elif rel == "subset":
